@@ -113,4 +113,21 @@ where
     fn verif_internal_copy(&self) -> Option<(Vec<T>, Vec<usize>)> {
         Some(self.factors.verif_internal_copy())
     }
+    #[cfg(clarabel_verif)]
+    #[allow(clippy::type_complexity)]
+    fn verif_qdldl_factors(
+        &self,
+    ) -> Option<(Vec<usize>, Vec<usize>, Vec<T>, Vec<T>, Vec<usize>, Vec<i8>, usize, usize)> {
+        let f = &self.factors;
+        Some((
+            f.L.colptr.clone(),
+            f.L.rowval.clone(),
+            f.L.nzval.clone(),
+            f.D.clone(),
+            f.perm.clone(),
+            f.verif_Dsigns(),
+            f.regularize_count(),
+            f.positive_inertia(),
+        ))
+    }
 }
